@@ -487,6 +487,32 @@ func checkPages(sc *Scenario, w, l *OpResult, active []int) []Issue {
 			out = append(out, Issue{"break:avoid-after", "break-after", fmt.Sprintf("%q has break-after: avoid but the next box (%q) starts on page %d instead of %d", kw[0], kw[1], pb+1, pa+1)})
 		}
 	}
+	// reference model for fixed-height blocks: the page of every marker word
+	if len(e.WordPage) > 0 {
+		var ks []string
+		for k := range e.WordPage {
+			ks = append(ks, k)
+		}
+		sort.Strings(ks)
+		for _, k := range ks {
+			if got, ok := pageOf[k]; ok && got != e.WordPage[k] {
+				out = append(out, Issue{"page:placement", "fixed-height-blocks", fmt.Sprintf("block %q is on page %d, the greedy model of fixed-height blocks puts it on page %d (a page ended early or late)", k, got+1, e.WordPage[k]+1)})
+				break
+			}
+		}
+	}
+	// in-flow blocks stay above the footnote area / inside the content box
+	if l != nil && l.Status == "ok" && e.BlocksFit {
+		for p, g := range l.PageGeom {
+			limit := g.ContentBottom
+			if g.FootnoteTop > 0 && g.FootnoteTop < limit {
+				limit = g.FootnoteTop
+			}
+			if g.MaxBlockBottom > limit+0.01 {
+				out = append(out, Issue{"page:overflow", "block-below-limit", fmt.Sprintf("page %d: an in-flow block ends at y=%g, below the limit y=%g (content box bottom / footnote area top)", p+1, g.MaxBlockBottom, limit)})
+			}
+		}
+	}
 	// page margins by side / first / blank (from the laid-out page boxes)
 	if l != nil && l.Status == "ok" && len(e.PageMargins) > 0 && len(l.PageGeom) == n {
 		for p, g := range l.PageGeom {
